@@ -146,9 +146,6 @@ def run(cfg, R):
 
     name = f"{kind}/{optn}/n{n}b{b}/it{n_iter}" + ("/aux" if cfg["aux"] else "") + f"/tracked-{cfg['tracked']}" + ("/resumed" if resume else "")
     key = f"{kind}:{optn}"
-    tr = R.trace(name, f, (lr, sched, params, data, loss, param_data, obs_data), key=key + ":raises", use_stubs=True, missing="example",
-                 conc=lambda nm, l: nm.endswith("indices"))
-    if tr is None: return
     NI = n2 if resume else n_iter
 
     def cmp_tree(label, a, b):
@@ -186,6 +183,10 @@ def run(cfg, R):
         G += cmp_tree("tracked-parameter histories == value after the update of each iteration", out[6], ref[5])
         G += cmp_tree("returned loss object == the loss passed in", out[4], A[4])
         return G
+
+    tr = R.trace(name, f, (lr, sched, params, data, loss, param_data, obs_data), key=key + ":raises", use_stubs=True, missing="example",
+                 conc=lambda nm, l: nm.endswith("indices"), concrete_goals=goals, fallback_key=key)
+    if tr is None: return
 
     def twins(A, O):
         out, ref = O
